@@ -46,6 +46,8 @@ def gen_case(rng, tier):
                 chosen.append(rng.choice(["nosuchctx", bad["name"]]))
             ok = all(n in valid for n in chosen)
             steps.append({"f": "with", "names": chosen, "ok": ok, "raise": rng.random() < 0.4,
+                          # a block of one context is entered through the with_context decorator half of the time
+                          "deco": len(chosen) == 1 and rng.random() < 0.5,
                           "inner": [{"x": p[0], "src": p[1], "dst": p[2]} for p in rng.sample(PROBES, 2)]})
         else:
             p = rng.choice(PROBES)
@@ -163,13 +165,19 @@ class Check(Property):
                     outs.append(self.active_j(u))
                 elif s["f"] == "with":
                     inner = []
+
+                    def body():
+                        inner.append(self.active_j(u))
+                        for p in s["inner"]:
+                            inner.append(conv(p))
+                        if s["raise"]:
+                            raise Boom()
                     try:
-                        with u.context(*s["names"]):
-                            inner.append(self.active_j(u))
-                            for p in s["inner"]:
-                                inner.append(conv(p))
-                            if s["raise"]:
-                                raise Boom()
+                        if s.get("deco"):
+                            u.with_context(s["names"][0])(body)()
+                        else:
+                            with u.context(*s["names"]):
+                                body()
                         inner.append(self.active_j(u))
                     except Boom:
                         inner.append(self.active_j(u))
@@ -293,19 +301,24 @@ class Check(Property):
                     stack = [] if s["n"] is None else stack[s["n"]:]
                 elif s["f"] == "with":
                     obs0 = self.observe(u)
+                    def body():
+                        if names_now() != [canon_name(n) for n in reversed(s["names"])] + stack:
+                            v.append(f"{tag}: inside with {s['names']} the stack is {names_now()}")
+                        if s["raise"]:
+                            raise Boom()
                     try:
-                        with u.context(*s["names"]):
-                            if names_now() != [canon_name(n) for n in reversed(s["names"])] + stack:
-                                v.append(f"{tag}: inside with {s['names']} the stack is {names_now()}")
-                            if s["raise"]:
-                                raise Boom()
+                        if s.get("deco"):
+                            u.with_context(s["names"][0])(body)()
+                        else:
+                            with u.context(*s["names"]):
+                                body()
                     except Boom:
                         pass
                     except Exception:  # noqa: BLE001
                         if s["ok"]:
                             v.append(f"{tag}: with {s['names']} raised although the contexts are valid")
                     if self.observe(u) != obs0:
-                        v.append(f"{tag}: after leaving with {s['names']} (raise={s['raise']}, ok={s['ok']}) answers differ "
+                        v.append(f"{tag}: after leaving with {s['names']} (raise={s['raise']}, ok={s['ok']}, decorator={bool(s.get('deco'))}) answers differ "
                                  f"from those before entry")
                 if names_now() != stack:
                     v.append(f"{tag}: after step {s['f']} {s.get('names', '')} the active stack is {names_now()}, "
